@@ -55,7 +55,7 @@ def random_fspec(rng):
     else:
         t = gen.random_threshold(rng)
     return {'kind': kind, 'measure': measure, 'threshold': t, 'allow_empty': rng.random() < 0.6,
-            'allow_missing': rng.random() < 0.4}
+            'allow_missing': rng.random() < 0.4, 'measure_spelling': gen.spell(rng, measure)}
 
 
 def run_case(case, rec, ssj=None):
